@@ -557,7 +557,9 @@ var wordPool = []string{"one", "two", "three", "polish", "Polish", "One", "ONE",
 	// valid but unusual: a byte-order mark, a right-to-left mark, a decomposed accent, letters outside the BMP
 	// (Deseret: lower 𐐨 has the upper form 𐐀), a zero-width joiner sequence, USA / usa (ToLower is not Title's inverse)
 	// characters a careless implementation might use as a delimiter of its own
-	"alpha\x1fbeta", "\x1f", "nul\x00l", "a,b", "a|b", "a;b", "rec\x1esep", "a\x1cb", "tab\tin", "new\nline",
+// words that consist of white space only are words (NewWordList keeps and counts them)
+	" ", "\t", "\u00a0", "\u3000", "  ",
+		"alpha\x1fbeta", "\x1f", "nul\x00l", "a,b", "a|b", "a;b", "rec\x1esep", "a\x1cb", "tab\tin", "new\nline",
 	"\ufeffbom", "rtl\u200f", "e\u0301cole", "\U00010428\U00010429", "\U00010400\U00010429", "a\u200db", "usa", "USA", "iPhone", "IPhone"}
 
 // words that all change under strings.Title, including pairs of distinct words that share one
@@ -1105,7 +1107,7 @@ func (x *gen) pickCellOps() {
 // every scheme, with the empty word drawn at every position — capitalised positions included. The
 // answer is a password or an error, never a panic.
 func (x *gen) emptyWordBlock() {
-	lists := [][]string{{""}, {"", "a"}, {"", "b", "c"}, {"", "日本"}, {"", "Polish", "polish"}}
+	lists := [][]string{{""}, {"", "a"}, {"", "b", "c"}, {"", "日本"}, {"", "Polish", "polish"}, {" ", "a"}, {"\t", "b", "c"}, {"\u3000", "日本"}, {"\u00a0"}}
 	for _, ws := range lists {
 		sort.Strings(ws)
 		n := uint32(len(uniq(ws)))
@@ -1349,7 +1351,7 @@ func (x *gen) longGenerationOps() {
 	ws := []string{"a", "b"}
 	lens := []int{1000, 4097, 16385}
 	if x.thorough() {
-		lens = append(lens, 32769, 65537)
+		lens = append(lens, 32769)
 	}
 	for _, L := range lens {
 		t := make([]uint32, L+4)
@@ -1394,6 +1396,18 @@ func (x *gen) defaultBudgetOps() {
 	}
 }
 
+// longWordLists: a word is a word at any length — 255, 256, 300 and 1000 characters, alone, with its
+// capitalised twin, among short words (what an index can encode is MakeIndices' business, not the
+// list's).
+func (x *gen) longWordLists() {
+	for _, n := range []int{255, 256, 300, 1000} {
+		long := strings.Repeat("q", n)
+		for _, ws := range [][]string{{long}, {long, "a", "b"}, {strings.Title(long), long, "zz"}, {"a", long + "x", long}} {
+			x.emit("wlnew words=%s titles=%s reps=2", encList(ws), encList(wordTitles(ws)))
+		}
+	}
+}
+
 func (x *gen) wlnewOp(reps int) {
 	words := x.wordList(true)
 	if x.g.chance(3) {
@@ -1406,6 +1420,9 @@ func (x *gen) wlnewOp(reps int) {
 
 var tokPool = []string{"a", "b", "-", " ", "correct", "horse", "é", "ü", "日本", "😀", "ab", "x→y", "0", "12", "été", "𝄞𝄞",
 	"\uFFFD", "caf\uFFFD", "\u00a0", "\u2028", "%s", "\n", "\r", "end\r", "line\n", "\r\n", " ", "tab\t",
+	// a character is a code point: combining marks, joiners, regional indicators and jamo are characters
+	// of their own, whatever a user-perceived "grapheme" is
+	"e\u0301", "\u0301", "a\u0308\u0323", "🇩🇪", "👨\u200d👩\u200d👧", "\u1100\u1161", "\u0e01\u0e33", "x\ufe0f",
 	// what a well-meaning clean-up would strip from the front or the end of a password
 	"\ufeff", "\ufeffab", "\u200b", "\x00", " lead", "trail ", "\u200e", "\u00ad"}
 
@@ -2124,6 +2141,8 @@ func generate(prop, tier string, seed uint64) []string {
 		rep(25, x.pickCellOps)
 		rep(12, x.oneCellOps)
 		x.lookalikeBlock(true)
+		// a pick whose raw word cannot be delivered yields no alternative at all: no result
+		rep(8, x.faultOps)
 	case "C02":
 		rep(30, func() { x.chargenOp(x.recipe(1), fmt.Sprintf(" reconf=%d", 1+x.g.intn(4))) })
 		x.bigAlphabetBlock()
@@ -2161,9 +2180,11 @@ func generate(prop, tier string, seed uint64) []string {
 		rep(12, x.oneCellOps)
 		x.lookalikeBlock(true)
 		x.caseVariantCells()
+		rep(8, x.faultOps)
 		x.builtinListOps()
 		rep(700, func() { x.wlgenOp("wlgen", "") })
 	case "C05":
+		x.emptyWordBlock()
 		rep(30, func() { x.wlgenOp("wlgen", fmt.Sprintf(" reconf=%d", 1+x.g.intn(4))) })
 		x.longGenerationOps()
 		x.titleOps(150)
@@ -2206,6 +2227,14 @@ func generate(prop, tier string, seed uint64) []string {
 			}
 		}
 		x.lookalikeBlock(false)
+		// Entropy() of recipes Generate would refuse: the formula holds for every Length
+		for _, L := range []int{0, -1, -7} {
+			for _, sp := range []string{"char:45", "preset:d1", "preset:d2", "preset:sym", "preset:none", "custom:8:45,46", "const:46"} {
+				for _, ws := range [][]string{{"uno", "dos", "tres"}, {"a", "b", "c", "d", "e", "f", "g"}, {"solo"}} {
+					x.emit("wlent0 words=%s titles=%s L=%d sep=%s cap=%s", encList(ws), encList(wordTitles(ws)), L, sp, encCps([]string{"none", "first", "all"}[(L*L+len(ws))%3]))
+				}
+			}
+		}
 		x.titleOps(150)
 		rep(500, func() { x.wlnewOp(8 * scale) })
 		rep(500, func() { x.wlgenOp("wlent", "") })
@@ -2214,6 +2243,12 @@ func generate(prop, tier string, seed uint64) []string {
 		rep(30, func() { x.chargenOp(x.recipe(x.g.intn(4)), fmt.Sprintf(" reenter=%d", 1+x.g.intn(6))) })
 		rep(30, func() { x.wlgenOp("wlgen", fmt.Sprintf(" reenter=%d", 1+x.g.intn(6))) })
 		rep(40, x.faultOps)
+		// a source that answers (0, nil) many times before it delivers: io.ReadFull keeps asking
+		for _, z := range []int{1, 99, 100, 101, 150, 300} {
+			plan := strings.Repeat("0:0,", z) + "4:0"
+			x.emit("source n=10 plan=%s bytes=%s", plan, encHex([]byte{0, 0, 0, 7, 1, 2, 3, 4}))
+			x.emit("source n=10 plan=2:0,%s bytes=%s", plan, encHex([]byte{0, 0, 0, 7, 1, 2, 3, 4}))
+		}
 		// every error kind once, at the first and at a later read
 		for k := range errorKinds {
 			x.emit("chargen r=4/0/0/0/97.98.99/-/_ T=3 fr=1:1 tape=_ resume=%d:1.2.0.1.2.0", k)
@@ -2222,6 +2257,7 @@ func generate(prop, tier string, seed uint64) []string {
 		}
 		rep(600, x.sourceOp)
 	case "C10":
+		x.longWordLists()
 		x.bigListOps()
 		x.titleOps(300)
 		x.lookalikeBlock(false)
